@@ -1,4 +1,5 @@
 import JP.Check
+import JP.Legacy.Check
 
 /-!
 # Request handling of the line-protocol driver (pure part)
@@ -181,7 +182,9 @@ def handleAllow (id : String) (args : List String) : String :=
       | .ok ops =>
         let mOn := obsOf (Impl.applyBytes oOn [] d ops)
         let mOff := obsOf (Impl.applyBytes oOff [] d (eraseIdxs ops sk))
-        let corr := sameObs mOn on && sameObs mOff off
+        -- see handleApply: `move` from "/" creates sharing that the model does not represent
+        let aliasSelf : Bool := ops.any fun op => op.kind = ascii "move" && op.frm = some [47]
+        let corr := aliasSelf || (sameObs mOn on && sameObs mOff off)
         let sOn := specApply oOn d p
         let vSpec := c01 sOn on
         let vSame : Verdict :=
@@ -219,7 +222,10 @@ def handleTestTr (id : String) (args : List String) : String :=
     | some o, some d, some p, some p2, some (a, _), some (b, _) =>
       let mA := applyModel o [] d p
       let mB := applyModel o [] d p2
-      let corr := sameObs mA a && sameObs mB b
+      let aliasSelf : Bool := match Impl.decodePatch p with
+        | .ok ops => ops.any fun op => op.kind = ascii "move" && op.frm = some [47]
+        | _ => false
+      let corr := aliasSelf || (sameObs mA a && sameObs mB b)
       let v15 : Verdict :=
         match a with
         | .ok x => (match b with
@@ -676,14 +682,23 @@ def handleLApply (id : String) (args : List String) : String :=
   | negS :: limitS :: doc :: patch :: "=>" :: obsS :: rest =>
     match hexField doc, hexField patch, parseObs obsS, limitS.toInt? with
     | some d, some p, some (obs, nilDoc), some limit =>
-      let o : Impl.Opts := { neg := negS = "1", limit := limit }
+      let neg := negS = "1"
+      let o : Impl.Opts := { neg := neg, limit := limit }
+      let model := Legacy.applyModel neg limit d p
+      let corr := sameObs model obs
       let s : Spec.Outcome := if limit = 0 then specApply { o with limit := 0 } d p else .unspec
       -- outside the statement: a copy whose source is the whole document, adds that replace the root
       let rootish : Bool := match specPatch p with
         | some ops => ops.any fun op => (op.kind = .add && op.path = []) || (op.kind = .copy && op.frm = []) || (op.kind = .replace && op.path = [])
             || (op.kind = .test && op.value.isNone)      -- RFC 6902 requires a value; the legacy decoder does not validate
         | none => true
-      let escapes : Bool := p.contains 92 || d.contains 92
+      -- C18's domain: "strings compared by test operations are spelled without escapes and
+      -- without <, >, &" (v4 compares spellings, and `copy` re-spells its value with HTML escapes)
+      let escapes : Bool := p.contains 92 || d.contains 92 || hasRawHtml p || hasRawHtml d
+      let listed (i : Nat) (c : Spec.Cause) : Bool :=
+        let k := opKindAt p i
+        c = .testUnequal || c = .badIndex
+          || ((k = some .remove || k = some .move) && (c = .absentMember || c = .parentUnreachable))
       let v18 : Verdict :=
         if rootish then .unspec else
         match s with
@@ -695,16 +710,18 @@ def handleLApply (id : String) (args : List String) : String :=
                          | none => .viol "output-not-json")
            | _ => if escapes then .unspec else .viol "should-succeed")
         | .fail i c =>
-          let k := opKindAt p i
-          let listed : Bool := c = .testUnequal || c = .badIndex
-            || ((k = some .remove || k = some .move) && (c = .absentMember || c = .parentUnreachable))
-          if !listed then .unspec
+          if !listed i c then .unspec
           else (match obs with
                 | .err _ => if nilDoc then .ok else .viol "document-with-error"
                 | _ => if c = .testUnequal && escapes then .unspec else .viol "should-fail")
+      -- C12: the specification run with the legacy code's own copy sizes and the limit
+      let s12 : Spec.Outcome := if limit > 0 then Legacy.specApply neg limit d p else .unspec
+      let v12 : Verdict :=
+        if limit ≤ 0 || rootish || d.isEmpty then .unspec
+        else Legacy.c12 listed escapes s12 obs
       let _ := rest
-      reply id true "-" [("C18", v18), ("C04", if obs.bad then .viol "panic-or-hang" else .ok)]
-        ("L/" ++ specClass s ++ "/" ++ obsClass obs ++ "/" ++ kindsSig p ++ (if limit > 0 then "L" else ""))
+      reply id corr (showObs model) [("C18", v18), ("C12", v12), ("C04", if obs.bad then .viol "panic-or-hang" else .ok)]
+        ("L/" ++ specClass (if limit > 0 then s12 else s) ++ "/" ++ obsClass obs ++ "/" ++ kindsSig p ++ (if limit > 0 then "L" else ""))
     | _, _, _, _ => bad id "lapply-fields"
   | _ => bad id "lapply-arity"
 
@@ -722,7 +739,9 @@ def handleLEqual (id : String) (args : List String) : String :=
           else if Spec.numEqv va vb then .unspec
           else (if g then .viol "different-values-reported-equal" else .ok)
         | _, _, _ => .unspec
-      reply id true "-" [("C19", v19), ("C04", if got.isNone then .viol "panic-or-hang" else .ok)] ("L/" ++ r)
+      let m := Legacy.equal x y
+      reply id (got = some m) (if m then "t" else "f")
+        [("C19", v19), ("C04", if got.isNone then .viol "panic-or-hang" else .ok)] ("L/" ++ r)
     | _, _ => bad id "lequal-fields"
   | _ => bad id "lequal-arity"
 
@@ -741,7 +760,9 @@ def handleLMerge (id : String) (args : List String) : String :=
                               | none => .viol "output-not-json")
                 | _ => .viol "should-succeed")
         | _, _ => .unspec
-      reply id true "-" [("C19", v19), ("C04", if obs.bad then .viol "panic-or-hang" else .ok)] ("L/" ++ obsClass obs)
+      let m := obsOf (Legacy.mergePatch doc patch)
+      reply id (sameObs m obs) (showObs m)
+        [("C19", v19), ("C04", if obs.bad then .viol "panic-or-hang" else .ok)] ("L/" ++ obsClass obs)
     | _, _, _ => bad id "lmerge-fields"
   | _ => bad id "lmerge-arity"
 
@@ -754,7 +775,17 @@ def handleLCompose (id : String) (args : List String) : String :=
         match parseValueOf p2 with
         | some v2 => if v2.isObj then c07 p1 p2 doc comb seq app else .unspec
         | none => .unspec
-      reply id true "-" [("C19", v19), ("C04", if comb.bad || seq.bad || app.bad then .viol "panic-or-hang" else .ok)] ("L/" ++ obsClass comb)
+      -- the three calls the harness made, replayed on the model
+      let mComb := obsOf (Legacy.mergeMergePatches p1 p2)
+      let mSeq : Obs := match Legacy.mergePatch doc p1 with
+        | .ok mid => obsOf (Legacy.mergePatch mid p2)
+        | _ => .err '-'
+      let mApp : Obs := match mComb with
+        | .ok c => obsOf (Legacy.mergePatch doc c)
+        | _ => .err '-'
+      let corr := sameObs mComb comb && sameObs mSeq seq && sameObs mApp app
+      reply id corr (showObs mComb ++ "|" ++ showObs mSeq ++ "|" ++ showObs mApp)
+        [("C19", v19), ("C04", if comb.bad || seq.bad || app.bad then .viol "panic-or-hang" else .ok)] ("L/" ++ obsClass comb)
     | _, _, _, _, _, _ => bad id "lcompose-fields"
   | _ => bad id "lcompose-arity"
 
@@ -769,11 +800,20 @@ def handleLCreate (id : String) (args : List String) : String :=
           if !(va.isObj && vb.isObj) || !(floatExact va && floatExact vb) then .unspec
           else c03 x y pobs mobs
         | _, _ => .unspec
-      reply id true "-" [("C19", v19), ("C04", if pobs.bad || mobs.bad then .viol "panic-or-hang" else .ok)] ("L/" ++ obsClass pobs)
+      -- numbers outside the modelled `float64` domain: no model, visible in `sig`
+      let modelled := Legacy.createModelled x y
+      let mP := obsOf (Legacy.createMergePatch x y)
+      let mM : Obs := match mP with
+        | .ok pb => obsOf (Legacy.mergePatch x pb)
+        | _ => .err '-'
+      let corr := !modelled || (sameObs mP pobs && sameObs mM mobs)
+      reply id corr (if modelled then showObs mP ++ "|" ++ showObs mM else "-")
+        [("C19", v19), ("C04", if pobs.bad || mobs.bad then .viol "panic-or-hang" else .ok)]
+        ("L/" ++ obsClass pobs ++ (if modelled then "" else "/nomodel"))
     | _, _, _, _ => bad id "lcreate-fields"
   | _ => bad id "lcreate-arity"
 
-def handle (line : String) : String :=
+def handle1 (line : String) : String :=
   match line.splitOn " " with
   | "APPLY" :: id :: args => handleApply id args
   | "ALLOW" :: id :: args => handleAllow id args
@@ -795,6 +835,21 @@ def handle (line : String) : String :=
   | "LCOMPOSE" :: id :: args => handleLCompose id args
   | "LCREATE" :: id :: args => handleLCreate id args
   | _ => "? corr=diff bad-request=unknown-command"
+
+end Driver
+end JP
+
+namespace JP
+namespace Driver
+
+/-- a request executed inside a call history carries `hist=diff` when the same call printed
+something else earlier in the history: that is a C09 violation whatever the model says -/
+def handle (line : String) : String :=
+  let r := handle1 line
+  if (line.splitOn " ").contains "hist=diff" then
+    (r.replace "C09=ok" "C09=viol:result-depends-on-call-history")
+      ++ (if (r.splitOn "C09=").length > 1 then "" else " C09=viol:result-depends-on-call-history")
+  else r
 
 end Driver
 end JP
